@@ -93,6 +93,8 @@ def ref_missing(sp, comps):
 
 def run_item(item):
     g = drive.gx()
+    import checks.c03 as c03
+    c03._jax_env()
     res = c01.new_res()
     for key, sp in item["specs"]:
         text = models.spec_text(sp)
@@ -156,6 +158,16 @@ def run_item(item):
                 continue
             res["transitions"] += 4
             bad = {}
+            # JAX sub-modules (rich family in quick, everything in thorough): every function must agree with the NumPy sub-module
+            jmods = {}
+            if key.startswith("rich|") or item.get("tier") != "quick":
+                try:
+                    for tag, other in (("A", "B"), ("B", "A")):
+                        if mods[tag] is not None:
+                            jmods[tag] = drive.exec_py(drive.py_code(parts[tag][0], scheme=SCH, missing_values=parts[other][0].missing_variables or None, backend="jax"))
+                except Exception as ex:
+                    fail("submodel-codegen-raises-jax", f"{type(ex).__name__}: {ex}"[:300])
+                    jmods = {}
             for pt in pts:
                 sF = numpy.zeros(len(full["state"]))
                 for n, i in full["state"].items():
@@ -218,6 +230,23 @@ def run_item(item):
                         bad.setdefault("submodel-call-raises", (pt, f"part {tag}: {ex!r}"[:200]))
                         continue
                     res["transitions"] += 4
+                    if tag in jmods:
+                        import jax.numpy as jnp
+                        jm = jmods[tag]
+                        ja = [jnp.array(s), jnp.array(p)] + ([jnp.array(mv)] if mvn else [])
+                        try:
+                            cmp_ = [("rhs", r, jm["rhs"](pt["t"], *ja)), ("monitor_values", mon, jm["monitor_values"](pt["t"], *ja))]
+                            cmp_ += [(sc, steps[sc], jm[sc](ja[0], pt["t"], 0.125, *ja[1:])) for sc in SCH]
+                            if "missing_values" in m:
+                                with numpy.errstate(all="ignore"):
+                                    cmp_.append(("missing_values", m["missing_values"](pt["t"], s, p, *extra), jm["missing_values"](pt["t"], *ja)))
+                            for fn, a_, b_ in cmp_:
+                                a_, b_ = numpy.asarray(a_, dtype=float), numpy.asarray(b_, dtype=float)
+                                res["evaluations"] += 1
+                                if a_.shape != b_.shape or not all(_eq(float(u), float(v)) for u, v in zip(a_.ravel(), b_.ravel())):
+                                    bad.setdefault(f"jax-{fn}-differs-from-numpy", (pt, f"part {tag}: jax {fn} = {b_.tolist()}, numpy {a_.tolist()}"))
+                        except Exception as ex:
+                            bad.setdefault("jax-submodel-call-raises", (pt, f"part {tag}: {ex!r}"[:200]))
                     for n, i in m["state"].items():
                         res["evaluations"] += 3
                         if not _eq(float(r[i]), float(rhsF[full["state"][n]])):
